@@ -469,9 +469,11 @@ class DoubleFree:
                             from . import common
                             di = common.dtor_info(g, rel)
                             for m in (di[1] if di else []):
-                                if m == "self":
+                                if m == "self" or m.startswith("close:"):
                                     continue
-                                mp = (".", ("*", n), m)
+                                mp = ("*", n)
+                                for part in m.split("."):
+                                    mp = (".", mp, part)
                                 for q in aliases(ent, mp):
                                     ent = ent | frozenset([("freed", q, e.pos)])
                     return (ent, facts, af)
